@@ -1,7 +1,7 @@
 //! Evaluates one case line on the real implementation and prints the canonical result line
 //! (the same grammar as oracle/driver.ml's `handle`).
 use std::cell::RefCell;
-use std::collections::VecDeque;
+use std::collections::{HashMap, VecDeque};
 use std::error::Error;
 use std::panic::{catch_unwind, AssertUnwindSafe};
 use std::rc::Rc;
@@ -1132,6 +1132,50 @@ fn eval_case_inner(line: &str) -> String {
             let b = bus.borrow();
             let trace: Vec<String> = b.trace.iter().map(str_msg).collect();
             format!("{} => {}", trace.join(" "), str_outcome(&r, b.blocked))
+        }
+        "CLS" => {
+            // CLS: as CL, but the Sign OBJECTS live as long as the case: one per (handle, address); an operation written
+            // "B:<op>" goes through handle B's object for that address, any other through handle A's.  (The model has
+            // no objects: it is CL with the prefixes dropped.)
+            let k: usize = num(t[1]);
+            let (signs, rest) = parse_signs(k, &t[2..]);
+            let bar = rest.iter().position(|x| *x == "|").expect("CLS needs |");
+            let (prior, ops) = (&rest[..bar], &rest[bar + 1..]);
+            let vbus = Rc::new(RefCell::new(VirtualSignBus::new(signs)));
+            for m in prior {
+                let msg = msg_of_str(m);
+                if guarded(|| vbus.borrow_mut().process_message(msg).map(|_| ())).is_none() {
+                    return "PANIC-PRIOR".to_string();
+                }
+            }
+            let shared: Rc<RefCell<dyn SignBus>> = Rc::new(RefCell::new(SharedVBus(vbus.clone())));
+            PEEK_BUS.with(|p| *p.borrow_mut() = Some(shared.clone()));
+            let mut handles: HashMap<(bool, u16), Sign> = HashMap::new();
+            let mut out = String::new();
+            for o in ops {
+                let (is_b, op) = match o.strip_prefix("B:") {
+                    Some(r) => (true, r),
+                    None => (false, *o),
+                };
+                let p: Vec<&str> = op.splitn(3, '.').collect();
+                let a: u16 = num(p[1]);
+                let ty = match p[0] {
+                    "CFG" | "CIN" => SIGN_TYPES[num::<usize>(p[2])],
+                    _ => SignType::Max3000Side90x7,
+                };
+                let sign = handles.entry((is_b, a)).or_insert_with(|| Sign::new(shared.clone(), Address(a), ty));
+                let r = run_cop_on(sign, op);
+                out.push_str(&str_outcome(&r, false));
+                let b = vbus.borrow();
+                for i in 0..k {
+                    out.push('/');
+                    out.push_str(&obs(b.sign(i)));
+                }
+                out.push(' ');
+            }
+            let b = vbus.borrow();
+            let pages: Vec<String> = (0..k).map(|i| str_pages(b.sign(i).pages())).collect();
+            format!("{}# {}", out, pages.join(";"))
         }
         "CL" => {
             let k: usize = num(t[1]);
